@@ -73,7 +73,7 @@ Record cnode := mkCNode {
 
 Inductive rowtype := RTSplitValue | RTSplitGroup | RTOther.    (* RowNodeGroup.row_type, as far as add_exit reads it *)
 Inductive cgroup :=
-| CGRow (first : nat) (second : option nat) (rt : rowtype)      (* RowNodeGroup.nodes: the row's node [+ the implicit router] *)
+| CGRow (first : nat) (more : list nat) (rt : rowtype)          (* RowNodeGroup.nodes: the row's node [+ the implicit router] *)
 | CGNoOp (parents : list (nat * econd)) (router : option nat)   (* NoOpNodeGroup *)
 | CGBlock (members : list nat).                                 (* NodeGroup *)
 
@@ -450,7 +450,7 @@ Definition node_fill_loose (nd : cnode) (d : dst) : cnode :=
     | BRandom r => BRandom (mkRandom (rr_result r) (map (fill_cat d) (rr_cats r)))
     end.
 
-Definition row_exit_node (k1 : nat) (k2 : option nat) : nat := match k2 with Some k => k | None => k1 end.
+Definition row_exit_node (k1 : nat) (ks : list nat) : nat := last ks k1.       (* self.nodes[-1] *)
 
 Fixpoint chas_loose (fuel : nat) (s : cstate) (g : nat) : bool :=
   match fuel with
@@ -500,7 +500,7 @@ Definition node_update_default (n : nat) (nd : cnode) (d : dst) : res (cnode * n
   end.
 
 (* RowNodeGroup.add_exit, the group g = CGRow k1 k2 rt *)
-Definition row_add_exit (s : cstate) (g k1 : nat) (k2 : option nat) (rt : rowtype) (d : dst) (c : econd)
+Definition row_add_exit (s : cstate) (g k1 : nat) (k2 : list nat) (rt : rowtype) (d : dst) (c : econd)
   : res cstate :=
   let k := row_exit_node k1 k2 in
   match nth_error (cs_nodes s) k with
@@ -569,7 +569,7 @@ Definition row_add_exit (s : cstate) (g k1 : nat) (k2 : option nat) (rt : rowtyp
             let k' := length (cs_nodes s) in
             let s1 := set_node s k (with_body nd (BBasic e')) n3 in
             let s2 := push_node s1 (mkCNode u gv [] (BSwitch SPlain r2)) n3 in
-            Ok (set_cgroup s2 g (CGRow k1 (Some k') rt))
+            Ok (set_cgroup s2 g (CGRow k1 (k2 ++ [k']) rt))
           end
         end
       | _ => Err (ECrash CAttributeError)          (* exit_node.router.operand on a node without router *)
@@ -773,7 +773,7 @@ Definition cstep (s : cstate) (cr : crow) : res cstate :=
                   end in
         match foldM (fun s' e => cadd_row_edge s' e (Some (cn_uuid nd))) es s1 with
         | Err x => Err x
-        | Ok s2 => Ok (set_names (add_cgroup s2 (CGRow k None (rowtype_of (cr_kind cr))) (r_id r)) node_name k)
+        | Ok s2 => Ok (set_names (add_cgroup s2 (CGRow k [] (rowtype_of (cr_kind cr))) (r_id r)) node_name k)
         end
       end
     end
@@ -788,7 +788,7 @@ Fixpoint cgnodes (fuel : nat) (gs : list cgroup) (g : nat) : res (list nat) :=
   | O => Err EOutOfFuel
   | S f =>
     match nth_error gs g with
-    | Some (CGRow a b _) => Ok (a :: opt_list b)
+    | Some (CGRow a b _) => Ok (a :: b)
     | Some (CGNoOp _ r) => Ok (opt_list r)
     | Some (CGBlock ms) => rmap (@concat nat) (mapM (cgnodes f gs) ms)
     | None => Err EInternal
@@ -825,7 +825,9 @@ Definition render_node (nd : cnode) : node :=
            (Some (RRandom (map render_cat (rr_cats r)) (render_result (rr_result r))))
   end.
 
-Definition cfinish (name : str) (s : cstate) : res flow :=
+(* `validate` = the node-uuid validation of _compile_flow (Flow/NodeIdCheck.v: compile_flow_validation, which
+   follows the probed constant compile_checks_node_uuids) *)
+Definition cfinish_with (validate : list str -> option str) (name : str) (s : cstate) : res flow :=
   match cs_heads s with
   | _ :: _ => Err EUnterminated
   | [] =>
@@ -838,7 +840,7 @@ Definition cfinish (name : str) (s : cstate) : res flow :=
         match mapM (fun k => match nth_error (cs_nodes s) k with Some nd => Ok nd | None => Err EInternal end) (concat ls) with
         | Err x => Err x
         | Ok nds =>
-          match compile_flow_validation (map cn_uuid nds) with
+          match validate (map cn_uuid nds) with
           | Some u => Err (EDupNodeUuid u)
           | None => Ok (mkFlow fu name (map render_node nds))
           end
@@ -850,10 +852,12 @@ Definition cfinish (name : str) (s : cstate) : res flow :=
 
 Definition crun (rows : list crow) : res cstate := foldM cstep rows cs0.
 
-Definition compile (name : str) (rows : list crow) : res flow :=
+Definition compile_with (validate : list str -> option str) (name : str) (rows : list crow) : res flow :=
   match crun rows with
   | Err x => Err x
-  | Ok s => cfinish name s
+  | Ok s => cfinish_with validate name s
   end.
+
+Definition compile : str -> list crow -> res flow := compile_with compile_flow_validation.
 
 End Supply.
